@@ -334,7 +334,7 @@ where
 
     /// Verification hook: forces the number of shares.
     #[cfg(hipstr_verif)]
-    pub(crate) fn verif_set_count(&self, shares: usize) {
+    pub fn verif_set_count(&self, shares: usize) {
         self.inner().count.verif_set(shares);
     }
 }
